@@ -22,6 +22,9 @@ import (
 
 func (in *Interp) goString(v Value, what string) string {
 	s := v.(Str)
+	if s.Opq {
+		opaqueUse(what)
+	}
 	if s.B != nil {
 		in.unsupported("symbolic string passed to %s", what)
 	}
@@ -256,7 +259,7 @@ func isConcrete(v Value) bool {
 	case *Term:
 		return v.IsConst()
 	case Str:
-		return v.B == nil
+		return v.B == nil && !v.Opq
 	case []Value:
 		for _, x := range v {
 			if !isConcrete(x) {
@@ -697,16 +700,29 @@ func (in *Interp) formatDecimal(fr *frame, v *Term, signed bool) Str {
 		}
 		pow *= 10
 	}
+	// Skolem witnesses: fresh digit bytes d1..dn with d1 != '0' (n>1) whose
+	// Horner value equals mag. Such digits exist and are unique, so adding
+	// the defining constraint to the path condition is sound; it replaces
+	// div/mod-by-10^k terms, which the solver handles badly.
 	ds := make([]*Term, n)
-	p := uint64(1)
-	for i := n - 1; i >= 0; i-- {
-		q := ts.Bin(OUDiv, mag, ts.BV(64, p))
-		d := ts.Bin(OURem, q, ts.BV(64, 10))
-		ds[i] = ts.Bin(OAdd, ts.Extract(d, 7, 0), ts.BV(8, '0'))
-		if i > 0 {
-			p *= 10
+	acc := ts.BV(64, 0)
+	for i := 0; i < n; i++ {
+		d := in.newAux("u8", SBV(8))
+		ds[i] = d
+		in.addPC(in.isDigitTerm(d))
+		if i == 0 && n > 1 {
+			in.addPC(ts.Not(ts.Eq(d, ts.BV(8, '0'))))
 		}
+		dv := ts.ZExt(ts.Bin(OSub, d, ts.BV(8, '0')), 64)
+		m10 := ts.Bin(OMul, acc, ts.BV(64, 10))
+		nacc := ts.Bin(OAdd, m10, dv)
+		if n >= 20 { // the Horner value must not wrap (only possible with 20 digits)
+			in.addPC(ts.Not(ts.Cmp(OUlt, ts.BV(64, math.MaxUint64/10), acc)))
+			in.addPC(ts.Not(ts.Cmp(OUlt, nacc, m10)))
+		}
+		acc = nacc
 	}
+	in.addPC(ts.Eq(acc, mag))
 	out := in.strFromBytes(ds)
 	if neg {
 		out = in.strConcat(Str{S: "-"}, out)
@@ -814,6 +830,9 @@ func (in *Interp) fmtValue(fr *frame, verb byte, a Value) Str {
 }
 
 func (in *Interp) quoteStr(s Str) Str {
+	if s.Opq {
+		return s
+	}
 	if s.B == nil {
 		return Str{S: strconv.Quote(s.S)}
 	}
@@ -916,6 +935,13 @@ func extSprintf(in *Interp, fr *frame, fn *ssa.Function, args []Value) Value {
 
 func extErrorf(in *Interp, fr *frame, fn *ssa.Function, args []Value) Value {
 	va, _ := args[1].([]Value)
+	// error text built from symbolic data is opaque: formatting it would fork
+	// on digit counts and escapes although no property inspects it.
+	for _, a := range va {
+		if !isConcrete(a) {
+			return in.mkError(Str{Opq: true})
+		}
+	}
 	return in.mkError(in.sprintf(fr, args[0].(Str), va))
 }
 
